@@ -26,6 +26,7 @@ var families = map[string]func(r *rand.Rand, i int) *Program{
 	"crash":     genCrash,
 	"slowack":   genSlowAck,
 	"ackq":      genAckQ,
+	"mreset":    genMReset,
 	"dist":      genDist,
 	"lenrace":   genLenRace,
 	"burst":     genBurst,
@@ -301,6 +302,19 @@ func genAckQ(r *rand.Rand, i int) *Program {
 	for q := range p.Queues {
 		p.Queues[q] = "ackq"
 	}
+	return p
+}
+
+// mreset: the programs of the counts family with a monitor that samples and resets the metrics while jobs are submitted and
+// finish (Metrics().Reset() is a public call like any other; only the race check runs this family: the counter properties
+// are stated for counters nobody resets)
+func genMReset(r *rand.Rand, i int) *Program {
+	p := genCounts(r, i)
+	var m []Op
+	for j := 0; j < 1+r.Intn(3); j++ {
+		m = append(m, Op{Op: "counts"}, Op{Op: "mreset"})
+	}
+	p.Threads = append(p.Threads, m)
 	return p
 }
 
